@@ -36,18 +36,39 @@ theorem arrayValue_pairs (idx : Ty) (d : Val) : ∀ (l : List Val),
   | [_] => rfl
   | k :: v :: rest => by simp [Sem.arrayValue, pairsOf, arrayValue_pairs idx d rest]
 
+theorem foldr_congr_mem {α β} (f g : α → β → β) (b : β) : ∀ (l : List α), (∀ x ∈ l, ∀ acc, f x acc = g x acc) →
+    List.foldr f b l = List.foldr g b l
+  | [], _ => rfl
+  | x :: l, h => by
+    simp only [List.foldr_cons]
+    rw [foldr_congr_mem f g b l (fun y hy => h y (List.mem_cons_of_mem _ hy)), h x (by simp)]
+
+theorem eval_store (I : Interp) (a k v : Term) :
+    eval I (Term.node .arrayStore [a, k, v] .none) = (eval I a).store (eval I k) (eval I v) := by
+  simp only [eval_node, evalNode, List.map_cons, List.map_nil, evalOp]
+
+theorem eval_constArr (I : Interp) (idx : Ty) (d : Term) :
+    eval I (Term.node .arrayValue [d] (.ty idx)) = .aconst idx (eval I d) := by
+  simp only [eval_node, evalNode, List.map_cons, List.map_nil, evalOp, Sem.arrayValue]
+
+theorem eval_arrayValue (I : Interp) (idx : Ty) (d : Term) (rest : List Term) :
+    eval I (Term.node .arrayValue (d :: rest) (.ty idx)) =
+      (pairsOf rest).foldr (fun kv acc => acc.store (eval I kv.1) (eval I kv.2)) (.aconst idx (eval I d)) := by
+  simp only [eval_node, evalNode, List.map_cons, evalOp]
+  rw [List.map_map, arrayValue_pairs, pairsOf_map, List.foldr_map]
+  rfl
+
 theorem eval_storeChain (I : Interp) : ∀ (l : List (Term × Term)) (acc : Term),
     eval I (l.foldl (fun acc kv => Term.node .arrayStore [acc, kv.1, kv.2] .none) acc)
       = l.foldl (fun a kv => a.store (eval I kv.1) (eval I kv.2)) (eval I acc)
   | [], _ => rfl
   | kv :: l, acc => by
     simp only [List.foldl_cons]
-    rw [eval_storeChain I l]
-    congr 1
+    rw [eval_storeChain I l, eval_store]
 
 theorem eval_unfoldAV : ∀ (t : Term), avOrdered t = true → ∀ I, eval I (unfoldAV t) = eval I t
   | .node op args p, h, I => by
-    rw [avOrdered] at h
+    rw [avOrdered.eq_def] at h
     simp only [Bool.and_eq_true, List.all_map, List.all_eq_true, Function.comp, id] at h
     obtain ⟨hargs, hnode⟩ := h
     have ih : ∀ a ∈ args, ∀ J, eval J (unfoldAV a) = eval J a := fun a ha J => eval_unfoldAV a (hargs a ha) J
@@ -57,42 +78,27 @@ theorem eval_unfoldAV : ∀ (t : Term), avOrdered t = true → ∀ I, eval I (un
       intro a ha
       funext J
       exact ih a ha J
-    by_cases hop : op = .arrayValue
-    · subst hop
-      cases p with
-      | ty idx =>
-        cases args with
-        | nil => rw [unfoldAV_plain] <;> simp
-        | cons d rest =>
-          simp only at hnode
-          have hS : sortBy (fun e : Term × Term => hrStr e.1) (pairsOf rest) = (pairsOf rest).reverse := by
-            simpa using hnode
-          rw [unfoldAV]
-          · rw [pairsOf_map, zip_map_self]
-            rw [sortBy_map (fun kv : Term × Term => hrStr kv.1) _ _ (fun _ => rfl), hS, List.foldl_map, ← List.map_reverse]
-            rw [show (fun (acc : Term) (kv : Term × Term) =>
-                  Term.node Op.arrayStore [acc, (kv, unfoldAV kv.1, unfoldAV kv.2).2.1, (kv, unfoldAV kv.1, unfoldAV kv.2).2.2] Payload.none)
-                = (fun acc kv => Term.node Op.arrayStore [acc, (unfoldAV kv.1, unfoldAV kv.2).1, (unfoldAV kv.1, unfoldAV kv.2).2] Payload.none) from rfl]
-            have hfm := List.foldl_map (f := fun kv : Term × Term => (unfoldAV kv.1, unfoldAV kv.2))
-              (g := fun (acc : Term) (kv : Term × Term) => Term.node Op.arrayStore [acc, kv.1, kv.2] Payload.none)
-              (l := (pairsOf rest).reverse) (init := Term.node Op.arrayValue [unfoldAV d] (Payload.ty idx))
-            rw [← hfm, eval_storeChain, List.foldl_map, List.foldl_reverse]
-            simp only [eval_node, evalNode, evalOp, List.map_cons, List.map_nil, Sem.arrayValue]
-            rw [List.map_map, arrayValue_pairs, pairsOf_map, List.foldr_map]
-            have hd := ih d (by simp) I
-            simp only [eval] at hd ⊢
-            rw [hd]
-            apply List.foldr_congr
-            · rfl
-            · intro kv hkv acc
-              have ⟨h1, h2⟩ := mem_pairsOf rest kv hkv
-              have e1 := ih kv.1 (List.mem_cons_of_mem _ h1) I
-              have e2 := ih kv.2 (List.mem_cons_of_mem _ h2) I
-              simp only [eval] at e1 e2
-              simp only [Function.comp, e1, e2]
-          · rfl
-      | _ => rw [unfoldAV_plain] <;> simp_all [eval_node]
-    · rw [unfoldAV_plain _ _ _ hop, eval_node, eval_node, hmap]
+    unfold unfoldAV
+    dsimp only
+    split
+    · next idx d rest ds restS hm =>
+      simp only [List.map_cons, List.cons.injEq] at hm
+      obtain ⟨rfl, rfl⟩ := hm
+      have hS : sortBy (fun e : Term × Term => hrStr e.1) (pairsOf rest) = (pairsOf rest).reverse := by
+        simpa using hnode
+      rw [pairsOf_map, zip_map_self]
+      have hsm := sortBy_map (α := Term × Term) (β := (Term × Term) × (Term × Term)) (fun kv => hrStr kv.1)
+        (fun e => hrStr e.1.1) (fun x => (x, unfoldAV x.1, unfoldAV x.2)) (fun _ => rfl) (pairsOf rest)
+      rw [hsm, hS, List.foldl_map]
+      have hfm := List.foldl_map (f := fun kv : Term × Term => (unfoldAV kv.1, unfoldAV kv.2))
+        (g := fun (acc : Term) (kv : Term × Term) => Term.node Op.arrayStore [acc, kv.1, kv.2] Payload.none)
+        (l := (pairsOf rest).reverse) (init := Term.node Op.arrayValue [unfoldAV d] (Payload.ty idx))
+      rw [← hfm, eval_storeChain, List.foldl_map, List.foldl_reverse, eval_constArr, eval_arrayValue, ih d (by simp) I]
+      apply foldr_congr_mem
+      intro kv hkv acc
+      have ⟨h1, h2⟩ := mem_pairsOf rest kv hkv
+      rw [ih kv.1 (List.mem_cons_of_mem _ h1) I, ih kv.2 (List.mem_cons_of_mem _ h2) I]
+    · rw [eval_node, eval_node, hmap]
 termination_by t => sizeOf t
 decreasing_by
   all_goals
@@ -100,14 +106,15 @@ decreasing_by
     have := List.sizeOf_lt_of_mem ha
     omega
 
-/-- **Tree printing is sound**: the text of `to_smtlib(f, daggify=False)`, read with the standard's semantics, has under
-every interpretation the value of `f`.
+/-- **Tree printing is sound**: the text of `to_smtlib(f, daggify=False)`, read with the standard's semantics, has the sort of `f` and, under
+every interpretation, the value of `f`.
 
 `_partial`: (1) `avOrdered` — an array value with two or more assignments must list them in the order in which the printed
 chain of stores applies them (the equality of the two orders needs commutation of `Val.store` on distinct keys, not proved);
 (2) `Printable` excludes instances of parametric sorts and the terms of the known findings F10, F11, F44, F45, F46. -/
 theorem print_sound_partial (env : SEnv) (t : Term) (h : Printable env [] t = true) (ho : avOrdered t = true) :
-    ∃ t', readStd env [] (toSexp t) = .ok t' ∧ t'.typeOf = t.typeOf ∧ ∀ I, eval I t' = eval I t :=
-  ⟨unfoldAV t, read_toSexp env t h, sorry, fun I => eval_unfoldAV t ho I⟩
+    ∃ t' τ, readStdTy env [] (toSexp t) = .ok (t', τ) ∧ t.typeOf = some τ ∧ ∀ I, eval I t' = eval I t := by
+  obtain ⟨τ, hty, hrd⟩ := read_toSexp_sort env t h
+  exact ⟨unfoldAV t, τ, hrd, hty, fun I => eval_unfoldAV t ho I⟩
 
 end PySMT.Printer
